@@ -10,25 +10,27 @@
 #include <math.h>
 #include <stdlib.h>
 #include <string.h>
+#include <limits.h>
 
 typedef unsigned long long int ndsize_t;   /* include/nix/types.hpp */
 typedef long long int ndssize_t;
 
-/* boost::optional<T>, std::pair<A,B>: plain value types */
-typedef struct { bool has; ndsize_t val; } opt_ndsize;
+/* boost::optional<T>, std::pair<A,B>: plain value types.  'has' is an int, not a _Bool: when a contract that returns an
+   optional replaces a call, the havocked return value may hold any byte in a _Bool, and 'has <==> c' then misfires */
+typedef struct { int has; ndsize_t val; } opt_ndsize;
 typedef struct { ndsize_t first; ndsize_t second; } pair_ndsize;
 typedef struct { double first; double second; } pair_double;
-typedef struct { bool has; pair_ndsize val; } opt_pair;
-typedef struct { bool has; double val; } opt_double;
+typedef struct { int has; pair_ndsize val; } opt_pair;
+typedef struct { int has; double val; } opt_double;
 
-static inline opt_ndsize opt_some_ndsize(ndsize_t v) { opt_ndsize o; o.has = true; o.val = v; return o; }
-static inline opt_pair opt_some_pair(pair_ndsize v) { opt_pair o; o.has = true; o.val = v; return o; }
-static inline opt_double opt_some_double(double v) { opt_double o; o.has = true; o.val = v; return o; }
+static inline opt_ndsize opt_some_ndsize(ndsize_t v) { opt_ndsize o; o.has = 1; o.val = v; return o; }
+static inline opt_pair opt_some_pair(pair_ndsize v) { opt_pair o; o.has = 1; o.val = v; return o; }
+static inline opt_double opt_some_double(double v) { opt_double o; o.has = 1; o.val = v; return o; }
 static inline pair_ndsize mk_pair_ndsize(ndsize_t a, ndsize_t b) { pair_ndsize p; p.first = a; p.second = b; return p; }
 static inline pair_double mk_pair_double(double a, double b) { pair_double p; p.first = a; p.second = b; return p; }
-#define OPT_NONE_ndsize ((opt_ndsize){false, 0})
-#define OPT_NONE_pair ((opt_pair){false, {0, 0}})
-#define OPT_NONE_double ((opt_double){false, 0.0})
+#define OPT_NONE_ndsize ((opt_ndsize){0, 0})
+#define OPT_NONE_pair ((opt_pair){0, {0, 0}})
+#define OPT_NONE_double ((opt_double){0, 0.0})
 /* 'x = boost::none' : the target type is known to the C compiler through a generic selection */
 #define OPT_NONE_FOR(x) _Generic((x), opt_ndsize: OPT_NONE_ndsize, opt_pair: OPT_NONE_pair, opt_double: OPT_NONE_double)
 
